@@ -446,6 +446,38 @@ def run_case(case, acc):
     acc.case(case, nontrivial(case), viols)
 
 
+def run_threads_case(cases, seed, acc):
+    """Four threads ask open_files / num_fds / io_counters of *different* simulated processes at once (static tables)."""
+    from vlib import concur
+    env = setup()
+    ps, vkernel, ProcTable, tmp = env["ps"], env["vkernel"], env["ProcTable"], env["tmp"]
+    t = ProcTable(btime=1_700_000_000)
+    t.spawn(1, 1, ppid=0, comm=b"init")
+    pids = []
+    for k, case in enumerate(cases):
+        pid = 500 + k
+        p = t.spawn(pid, 500 + k, ppid=1, comm=b"fd%d" % k)
+        p.fds = {}
+        for e in case["fds"]:
+            if e.get("gone") or e.get("info_gone"):
+                continue
+            target = e["target"].replace("$T", tmp) if e["target"].startswith("$T") else e["target"]
+            p.fds[e["fd"]] = dict(target=target, pos=e["pos"], flags=e["flags"], info_raw=render_fdinfo(e))
+        p.io = _b(case["io"])
+        pids.append(pid)
+    vk = vkernel.VK()
+    vk.table = t
+    vk.mount("/vproc", t)
+    with vk:
+        jobs = {}
+        for pid in pids:
+            for m in ("open_files", "num_fds", "io_counters"):
+                jobs[f"{m}@{pid}"] = lambda pid=pid, m=m: getattr(ps.Process(pid), m)()
+        _b2, errors, wrong = concur.concurrent_vs_sequential(jobs, seed, calls=50)
+    acc.count("call_path_comparisons", 200)
+    acc.case(dict(kind="threads", seed=seed), True, concur.violations(errors, wrong))
+
+
 # ---- live kernel: a real child holding descriptors of many kinds ------------------------------------------------
 
 LIVE_CHILD = r"""
@@ -724,6 +756,7 @@ def plan(tier, seed):
         shards.append(dict(kind="gen", seed=seed, start=s, count=c))
     shards.append(dict(kind="live"))
     shards.append(dict(kind="realclose"))
+    shards.append(dict(kind="threads", seed=seed, count=15 if tier == "quick" else 400))
     return shards
 
 
@@ -747,9 +780,16 @@ def run_shard(shard):
             run_live(shard, acc)
         elif shard["kind"] == "realclose":
             run_realclose(shard, acc)
+        elif shard["kind"] == "threads":
+            for i in range(shard["count"]):
+                cs = [gen_case(harness.rng_for(shard["seed"], "c14t", i, k)) for k in range(4)]
+                run_threads_case(cs, shard["seed"] * 7919 + i, acc)
         elif shard["kind"] == "cases":
             for case in shard["cases"]:
-                if case.get("kind") == "realclose":
+                if case.get("kind") == "threads":
+                    cs = [gen_case(harness.rng_for(case["seed"] // 7919, "c14t", case["seed"] % 7919, k)) for k in range(4)]
+                    run_threads_case(cs, case["seed"], acc)
+                elif case.get("kind") == "realclose":
                     run_realclose({}, acc)
                 elif case.get("kind") == "live":
                     run_live({}, acc)
